@@ -418,7 +418,7 @@ def r10_6(run):
     """the thermal law is compared with the numpy kernel (R10.1); the numba twin must compute the same guarded expressions
     (shared with C07 R7.1, restricted to the thermal kernel pair)"""
     from .c07 import r7_1
-    r7_1(run, only={"derivatives_termal"}, floor=4, residual_only=True)
+    r7_1(run, only={"derivatives_thermal"}, floor=4, residual_only=True)
 
 
 def r10_7(run):
